@@ -2,6 +2,10 @@ package main
 
 import (
 	"bytes"
+	"go/ast"
+	"go/parser"
+	"go/token"
+	"path/filepath"
 	"errors"
 	"fmt"
 	"io"
@@ -38,6 +42,7 @@ const (
 var (
 	errC18User   = errors.New("c18: user callback failed")
 	errC18Budget = errors.New("c18: callback invoked too often")
+	errC18Ctor   = errors.New("c18: NewCallback did not store what its options were given")
 	errC18Panic  = errors.New("c18: panic in SendWithCallbacks")
 )
 
@@ -58,6 +63,7 @@ type c18cb struct {
 	delayed     bool   // the function makes the device emit its next emission after c18Delay
 	viaOptions  bool   // built with NewCallback + opoptions (else struct literal)
 	name        string
+	optSeed     uint64 // order of the constructor options, explicit defaults
 	inner       string // the function runs Channel.SendInput(inner) itself (when the queue is empty), before any reply
 }
 
@@ -89,14 +95,18 @@ type c18case struct {
 
 var c18words = []string{"login:", "Password:", "hello", "bad", "Continue? [y/n]", "ERROR", "done", "router#",
 	"--More--", "yes", "no", "ok", "warning", "passphrase", "42 packets", "Abort",
-	"café", "über", "señal", "日本", "Zugriff verweigert: Ü", "é"}
+	"café", "über", "señal", "日本", "Zugriff verweigert: Ü", "é", "code: 7", "code: x", "login:admin", "Password: s3cret"}
 var c18filler = []string{"the", "quick", "interface", "is", "up", "10.0.0.1", "...", "%", "line protocol", "x"}
 
 // regexes a user might pass: lower case, or with their own case flag, plus (for the sensitivity
 // dimension) one written in upper case without a flag. None matches the empty string.
 var c18res = []string{`[a-z]+#`, `pass(word|phrase):?`, `(?i)ERROR`, `more`, `\d+ packets`, `(?m)^ok$`, `y/n`,
 	`ERROR`, `(?i)continue\?`, `log[a-z]n`, `(?i:Abort)|warning`, `\[y/n\]$`,
-	`caf[eé]`, `(?i)ÜBER`, `日本語?`, `se[nñ]al:?`, `é+`}
+	`caf[eé]`, `(?i)ÜBER`, `日本語?`, `se[nñ]al:?`, `é+`,
+	// upper-case escapes and classes, case groups, mixed-case literals: a pattern must reach the
+	// matcher exactly as the user wrote it (lower-casing its text would flip \S \D \W \B \A, [A-Z] …)
+	`(?i)password: ?\S+`, `code: \D`, `login:\S`, `\W\d+ packets`, `\Bore--`, `\A(x|%|up|the)\b`, `ok ?\z`,
+	`[A-Z]{3,}`, `\pL+#`, `\x41bort|\x61bort:`, `(?i)Warn(?-i:ing)`, `(?-i:ERROR)|yes\b`, `Abort`, `(?i)Login:\S*\s`, `\D\S\W\z`}
 
 func c18caseVar(r *vlib.Rng, w string) string {
 	switch r.Intn(5) {
@@ -272,7 +282,8 @@ func genC18Dialogue(r *vlib.Rng, cs c18case, thorough bool) c18case {
 		if !cb.nilFn && r.Chance(3, 5) {
 			cb.reply = r.Pick([]string{"y", "n", "secret", "show version", "", "q"})
 		}
-		cb.viaOptions = cb.reset && r.Chance(2, 3)
+		cb.viaOptions = cb.reset && r.Chance(5, 6)
+		cb.optSeed = r.U64()
 		cb.name = "cb" + strconv.Itoa(i)
 		cs.cbs = append(cs.cbs, cb)
 	}
@@ -659,6 +670,7 @@ type c18obs struct {
 	syncFail bool
 	newErr   string
 	delayedE map[int]bool // emissions that were sent by the delay timer
+	ctorMismatch string
 	emittedRaw []byte     // the device's own record of every byte it emitted
 }
 
@@ -692,10 +704,15 @@ func c18build(cb *c18cb, fn func(*generic.Driver, string) error, tscale int) (*g
 		if cb.re != nil {
 			o = append(o, opoptions.WithCallbackContainsRe(cb.re))
 		}
+		or := vlib.NewRng(cb.optSeed)
 		if !cb.insensitive {
 			o = append(o, opoptions.WithCallbackInsensitive(false))
+		} else if or.Bool() {
+			o = append(o, opoptions.WithCallbackInsensitive(true)) // the default, spelled out
 		}
-		o = append(o, opoptions.WithCallbackResetOutput())
+		if or.Chance(2, 3) {
+			o = append(o, opoptions.WithCallbackResetOutput()) // also the default
+		}
 		if cb.once {
 			o = append(o, opoptions.WithCallbackOnce())
 		}
@@ -705,8 +722,25 @@ func c18build(cb *c18cb, fn func(*generic.Driver, string) error, tscale int) (*g
 		if cb.nextTimeout != 0 {
 			o = append(o, opoptions.WithCallbackNextTimeout(time.Duration(cb.nextTimeout*tscale)*time.Millisecond))
 		}
-		o = append(o, opoptions.WithCallbackName(cb.name))
-		return generic.NewCallback(fn, o...)
+		if or.Chance(2, 3) {
+			o = append(o, opoptions.WithCallbackName(cb.name))
+		}
+		for i := len(o) - 1; i > 0; i-- { // the options in any order
+			j := or.Intn(i + 1)
+			o[i], o[j] = o[j], o[i]
+		}
+		g, err := generic.NewCallback(fn, o...)
+		if err == nil && (g.Contains != cb.contains || g.NotContains != cb.notContains || g.Insensitive != cb.insensitive ||
+			!g.ResetOutput || g.Once != cb.once || g.Complete != cb.complete ||
+			g.NextTimeout != time.Duration(cb.nextTimeout*tscale)*time.Millisecond ||
+			(g.ContainsRe == nil) != (cb.re == nil) || (cb.re != nil && g.ContainsRe.String() != cb.re.String())) {
+			got := "<nil>"
+			if g.ContainsRe != nil {
+				got = g.ContainsRe.String()
+			}
+			return g, fmt.Errorf("%w: fields %q %q re=%q insensitive=%v once=%v complete=%v next=%v", errC18Ctor, g.Contains, g.NotContains, got, g.Insensitive, g.Once, g.Complete, g.NextTimeout)
+		}
+		return g, err
 	}
 	return &generic.Callback{Callback: fn, Contains: cb.contains, NotContains: cb.notContains, ContainsRe: cb.re,
 		Insensitive: cb.insensitive, ResetOutput: cb.reset, Once: cb.once, Complete: cb.complete,
@@ -855,6 +889,10 @@ func runC18case(cs c18case) c18obs {
 			return nil
 		}
 		g, err := c18build(cb, fn, cs.tscale)
+		if errors.Is(err, errC18Ctor) {
+			o.ctorMismatch = fmt.Sprintf("callback %d: %v", i, err)
+			err = nil
+		}
 		if err != nil {
 			o.newErr = "callback:" + errClass(err)
 			return o
@@ -1131,6 +1169,7 @@ func runC18(c *ctx) {
 	c18RxPool(c)
 	c18FoldTie(c)
 	c18Constructor(c)
+	c18OptionSource(c)
 	rxDiff(c, []string{"Channel.promptPattern"}, c.n(60, 600))
 	n := c.n(1500, 30000)
 	cases := []c18case{genC18(1, false), genC18(2, false)}
@@ -1171,6 +1210,88 @@ func c18Constructor(c *ctx) {
 		}
 	}
 	res.Count("constructor-checks")
+}
+
+// c18OptionSource: source fact over driver/opoptions/callback.go, re-read on every run: every
+// WithCallback* option does nothing but store its argument (or `true`) in one field of the callback
+// — no recompilation, no rewriting of a pattern or text. Anything else in an option body makes the
+// model's reading "the callback holds what the user gave" unfounded.
+func c18OptionSource(c *ctx) {
+	res := c.res
+	path := filepath.Join(repoDir(), "driver", "opoptions", "callback.go")
+	fset := token.NewFileSet()
+	file, err := parser.ParseFile(fset, path, nil, 0)
+	if err != nil {
+		res.Fail("correspondence", "c18 source opoptions/callback.go", "cannot parse: "+err.Error(), "source-fact:opoptions")
+		return
+	}
+	n := 0
+	for _, d := range file.Decls {
+		fd, ok := d.(*ast.FuncDecl)
+		if !ok || !strings.HasPrefix(fd.Name.Name, "WithCallback") {
+			continue
+		}
+		n++
+		var lit *ast.FuncLit
+		ast.Inspect(fd.Body, func(x ast.Node) bool {
+			if l, ok := x.(*ast.FuncLit); ok && lit == nil {
+				lit = l
+			}
+			return lit == nil
+		})
+		bad := ""
+		stores := 0
+		if lit == nil {
+			bad = "no option closure"
+		} else {
+			for _, st := range lit.Body.List {
+				switch v := st.(type) {
+				case *ast.AssignStmt:
+					if v.Tok == token.DEFINE { // c, ok := o.(*generic.Callback)
+						if _, isTA := v.Rhs[0].(*ast.TypeAssertExpr); !isTA || len(v.Rhs) != 1 {
+							bad = "unexpected definition"
+						}
+						continue
+					}
+					sel, isSel := v.Lhs[0].(*ast.SelectorExpr)
+					if v.Tok != token.ASSIGN || len(v.Lhs) != 1 || !isSel {
+						bad = "unexpected assignment"
+						continue
+					}
+					switch rhs := v.Rhs[0].(type) {
+					case *ast.Ident: // the parameter, or true
+						if fd.Type.Params.NumFields() == 1 && rhs.Name != fd.Type.Params.List[0].Names[0].Name {
+							bad = "stores " + rhs.Name + " instead of its argument"
+						}
+						if fd.Type.Params.NumFields() == 0 && rhs.Name != "true" {
+							bad = "stores " + rhs.Name
+						}
+					default:
+						bad = "stores a computed value"
+					}
+					_ = sel
+					stores++
+				case *ast.IfStmt: // if !ok { return util.ErrIgnoredOption }
+					if u, isU := v.Cond.(*ast.UnaryExpr); !isU || u.Op != token.NOT || v.Else != nil || len(v.Body.List) != 1 {
+						bad = "conditional logic in the option body"
+					}
+				case *ast.ReturnStmt:
+				default:
+					bad = "unexpected statement"
+				}
+			}
+			if bad == "" && stores != 1 {
+				bad = fmt.Sprintf("%d stores", stores)
+			}
+		}
+		if bad != "" {
+			res.Fail("correspondence", "c18 source opoptions/callback.go "+fd.Name.Name, fd.Name.Name+": "+bad+" (an option must store its argument unchanged in one field)", "source-fact:opoptions")
+		}
+	}
+	res.Distribution["source-fact:callback-options"] = n
+	if n < 9 {
+		res.Note("only %d WithCallback* options found in opoptions/callback.go", n)
+	}
 }
 
 // c18FoldTie: the model's `fold` against bytes.ToLower on texts over the modelled alphabet, whole
@@ -1344,6 +1465,13 @@ func c18round(c *ctx, cases []c18case, par int, first bool) (retry []c18case) {
 		if o.newErr != "" {
 			res.Fail("machinery", caseLine, "could not set the case up: "+o.newErr, "setup")
 			continue
+		}
+		if o.ctorMismatch != "" {
+			// obligation: a callback option stores its argument (the compiled pattern keeps its String())
+			res.Fail("correspondence", caseLine, "NewCallback + opoptions: "+o.ctorMismatch+"; given "+c18descCbs(cs), "constructor-stores-arguments")
+		}
+		for _, cb := range cs.cbs {
+			count(fmt.Sprintf("built: via NewCallback+opoptions=%v regex=%v", cb.viaOptions, cb.reSrc != ""))
 		}
 		if o.syncFail {
 			count("sync-failed")
